@@ -368,6 +368,23 @@ def _tail_add_diagonal(ctx, step):
     return [("r.add_diagonal(d)", r.add_diagonal(d))]
 
 
+@action("tail_root_gram")
+def _tail_root_gram(ctx, step):
+    r = ctx.env["r"]
+    if isinstance(r, torch.Tensor):
+        return []
+    R = r.root_decomposition().root
+    out = [("root_decomposition().root Gram", R @ R.mT)]
+    Ri = r.root_inv_decomposition().root
+    out.append(("solve through root_inv_decomposition", torch.linalg.inv((Ri @ Ri.mT).to_dense())))
+    return out
+
+
+@action("tail_repeat")
+def _tail_repeat(ctx, step):
+    return [("r.repeat(*reps)", ctx.env["r"].repeat(*step["arg"]))]
+
+
 @action("tail_transpose")
 def _tail_transpose(ctx, step):
     return [("r.mT", ctx.env["r"].mT)]
